@@ -236,7 +236,8 @@ def _case(draw):
     boxed = []
     for nm, stem in draw(st.lists(st.sampled_from(BOX_NAMES), min_size=0, max_size=3, unique=True)):
         boxed.append({'n': nm, 'stem': stem, 'tag': draw(st.sampled_from(['boxed', 'boxed', 'boxed', 'pointer'])),
-                      'pair': draw(st.sampled_from([None, None, 'struct', 'opaque', 'anon', 'union', 'union-anon'])),
+                      'pair': draw(st.sampled_from([None, None, None, 'struct', 'struct', 'opaque', 'opaque', 'anon', 'anon',
+                                                    'union', 'union', 'union-anon', 'union-anon', 'alias'])),
                       'gt': draw(st.sampled_from(['get_type', 'get_type', 'get_type', 'get_gtype']))})
     case['boxed'] = boxed
     # ---- interface / class names first: value types may name any registered in-namespace type
@@ -245,7 +246,7 @@ def _case(draw):
     funames = draw(st.lists(st.sampled_from(FUND_NAMES), min_size=0, max_size=2, unique=True)) \
         if draw(st.integers(0, 3)) == 0 else []
     local = (['Foo' + n for n, _ in clnames] + ['Foo' + n for n, _ in ifnames]
-             + ['Foo' + b['n'] for b in boxed if b['tag'] == 'boxed' or b['pair']]
+             + ['Foo' + b['n'] for b in boxed if b['pair'] != 'alias' and (b['tag'] == 'boxed' or b['pair'])]
              + ['Foo' + e['n'] for e in enums if e['reg']])
     pointerish = ['Foo' + n for n, _ in ifnames] + ['Foo' + b['n'] for b in boxed if b['pair'] in ('struct', 'opaque', 'anon')]
     # ---- interfaces
@@ -455,6 +456,9 @@ def build(case):
             late.append(('x', _body(cname, flds, 'union')))
         elif p == 'union-anon':
             late.append(('e', _anon(cname, flds, 'union')))
+        elif p == 'alias':
+            # typedef gpointer FooHandle; registered with g_boxed_type_register_static / g_pointer_type_register_static
+            late.append(('e', {'d': 'typedef', 'name': cname, 'type': ty('gpointer', kind='typedef')}))
 
     def props_sigs(t):
         out = []
@@ -741,7 +745,7 @@ def check_case(case, ctx):
         for t in case[kind]:
             known['Foo' + t['n']] = t['n']
     for b in case['boxed']:
-        if b['tag'] == 'boxed' or b['pair']:
+        if b['pair'] != 'alias' and (b['tag'] == 'boxed' or b['pair']):
             known['Foo' + b['n']] = b['n']
     for e in case['enums']:
         if e['reg']:
@@ -864,7 +868,15 @@ def check_case(case, ctx):
         gt = 'foo_%s_%s' % (b['stem'], b['gt'])
         els = _by_gtype(ns, gname)
         bare = [e for e in ns.findall(GLIB + 'boxed') if e.get(GLIB + 'name') == b['n']]
-        if b['pair']:
+        if b['pair'] == 'alias':
+            # no struct or union of that name: nothing to attach to, yet the reported type has to appear somewhere
+            if b['tag'] == 'boxed' and len(els) != 1:
+                if ctx.known('boxed-dropped:same-named-alias'):
+                    continue
+                raise Violation('boxed-dropped:same-named-alias', '%s is reported as a boxed type and the header has `typedef gpointer '
+                                '%s;`: %d elements carry its glib:type-name' % (gname, gname, len(els)))
+            lab.add('%s-alias' % b['tag'])
+        elif b['pair']:
             want_tag = GI + ('union' if b['pair'].startswith('union') else 'record')
             if len(els) != 1 or els[0].tag != want_tag or els[0].get('name') != b['n']:
                 raise Violation('%s-not-attached' % b['tag'], '%s (%s, header has a %s): elements carrying its type name: %r'
@@ -932,7 +944,9 @@ def check_case(case, ctx):
         ci = x.get(C + 'identifier')
         if ci is not None:
             idents.setdefault(ci, x.tag)
-    bare_pointers = set('foo_%s_%s' % (b['stem'], b['gt']) for b in case['boxed'] if b['tag'] == 'pointer' and not b['pair'])
+    bare_pointers = set('foo_%s_%s' % (b['stem'], b['gt']) for b in case['boxed']
+                        if b['tag'] == 'pointer' and b['pair'] in (None, 'alias'))
+    alias_boxed = set('foo_%s_%s' % (b['stem'], b['gt']) for b in case['boxed'] if b['tag'] == 'boxed' and b['pair'] == 'alias')
     for s in gt_syms:
         if s in idents:
             if s in bare_pointers:
@@ -940,6 +954,8 @@ def check_case(case, ctx):
                     continue
                 raise Violation('get-type-function-kept:bare-pointer', '%s is the get-type function of a reported <pointer> type '
                                 'without a same-named struct; it is still emitted as %s' % (s, idents[s]))
+            if s in alias_boxed and ctx.known('boxed-dropped:same-named-alias'):
+                continue
             raise Violation('get-type-function-kept', '%s is still emitted as %s' % (s, idents[s]))
     for d in case.get('decoys', []):
         lab.add('decoy-' + d)
